@@ -38,9 +38,16 @@ class DegChecker:
         self.helpers = helpers or {}  # name -> FunctionInfo analysed with actual argument degrees
         self.n_exprs = 0
         self._memo = {}
+        self.node_deg = {}
 
     # ---- expressions -------------------------------------------------
     def deg(self, e, env):
+        d = self._deg(e, env)
+        if isinstance(e, ast.AST):
+            self.node_deg[id(e)] = d  # degree at the expression's own program point
+        return d
+
+    def _deg(self, e, env):
         self.n_exprs += 1
         if e is None:
             return POLY
